@@ -406,6 +406,59 @@ let handle kind c =
           prop "copy-covers-range" (Printf.sprintf "range %s..%s: source object %s is %s in the destination"
                                       (string_of_bytes (fmt_date start)) (string_of_bytes (fmt_date end_)) (string_of_bytes n)
                                       (match List.assoc_opt n after with None -> "missing" | Some _ -> "different"))) src
+  | "hang" ->
+    let name = next c in
+    let i = next_int c in
+    prop "hang" (Printf.sprintf "case %d (%s) of the harness did not finish within its watchdog time" i name)
+  | "fd" ->
+    let rlimit = next_bool c in
+    let budget = next_int c in
+    let objs = next_list c (fun c -> match next c with "bad" -> None | _ -> Some (next_report c)) in
+    let status = next c in
+    let count = int_of_z (next_z c) in
+    let torn = next_bool c in
+    let recs = next_list c next_report in
+    let peak = next_int c in
+    let open_r = next_int c in
+    let open_w = next_int c in
+    let fd_delta = next_int c in
+    let cstatus = next c in
+    let cpeak = next_int c in
+    let copen_r = next_int c in
+    let copen_w = next_int c in
+    let cfd_delta = next_int c in
+    let nobj = List.length objs in
+    (* model: objects are their index; the budget leaves room for at least one reader *)
+    let arr = Array.of_list objs in
+    let dec (b : bytes) : int option = let i = List.length b in if i < Array.length arr && arr.(i) <> None then Some i else None in
+    let enc (i : int) : bytes = List.init i (fun _ -> n_of_int 65) in
+    let keys = List.init nobj (fun i -> enc i) in
+    let free = nat_of_int (if rlimit then 1 else budget) in
+    let ((_, mcount), mok) = merge_fd enc dec free keys in
+    if mok <> (status = "ok") then diff "fd-merge-status" ~model:(string_of_bool mok) ~impl:status;
+    if mok && int_of_nat mcount <> count then diff "fd-merge-count" ~model:(string_of_int (int_of_nat mcount)) ~impl:(string_of_int count);
+    let (mpeak, mopen) = open_peak (merge_events dec keys) O O in
+    if not rlimit && int_of_nat mpeak <> peak then
+      diff "fd-peak-open-readers" ~model:(string_of_int (int_of_nat mpeak)) ~impl:(string_of_int peak);
+    if int_of_nat mopen <> open_r then diff "fd-open-readers-after" ~model:"0" ~impl:(string_of_int open_r);
+    (* the property: any number of stored reports is merged, also when it exceeds the descriptors available *)
+    let all_good = List.for_all (fun o -> o <> None) objs in
+    if all_good then begin
+      let how = if rlimit then Printf.sprintf "RLIMIT_NOFILE leaving %d descriptors" budget
+        else Printf.sprintf "at most %d upload readers open at once" budget in
+      if status <> "ok" then
+        prop "merge-any-number" (Printf.sprintf "%d decodable reports stored, %s: /merge/ answered %s, %d records in the merged object (peak %d readers open)"
+                                   nobj how status (List.length recs) peak)
+      else if torn || List.map (fun r -> Some r) recs <> objs then
+        prop "merge-one-line-per-object" (Printf.sprintf "%d reports stored, %d records merged" nobj (List.length recs))
+      else if count <> nobj then prop "merge-count" (Printf.sprintf "%d stored objects, response says %d" nobj count)
+    end;
+    if open_r <> 0 || open_w <> 0 || fd_delta <> 0 then
+      prop "descriptor-leak" (Printf.sprintf "after /merge/ returned: %d readers and %d writers still open, %d more descriptors in /proc/self/fd" open_r open_w fd_delta);
+    if copen_r <> 0 || copen_w <> 0 || cfd_delta <> 0 then
+      prop "descriptor-leak" (Printf.sprintf "after /chart/ returned: %d readers and %d writers still open, %d more descriptors in /proc/self/fd" copen_r copen_w cfd_delta);
+    if status = "ok" && cstatus <> "ok" then diff "fd-chart-status" ~model:"ok" ~impl:cstatus;
+    ignore cpeak
   | "badrange" ->
     let start = next_z c in
     let end_ = next_z c in
